@@ -7,6 +7,7 @@ import ALV.Lemmas.C09Gain
 import ALV.Lemmas.C09Order
 import ALV.Lemmas.C09Inverse
 import ALV.Lemmas.C09Stft
+import ALV.Lemmas.C09StftRun
 import Mathlib.Algebra.Order.Field.Rat
 import ALV.Common.Audit
 
@@ -367,6 +368,81 @@ theorem stft_styles (chain : List Dict) (kw d call : Dict) (k : String) :
     rfl
 
 end stft_plan
+
+section stft_run
+variable {K : Type} [Field K] [LT K] [DecidableLT K] [DecidableEq K]
+
+omit [LT K] [DecidableLT K] [DecidableEq K] in
+/-- **C09.4a** the wrapper multiplies each block by the analysis window FIRST: for an analysis
+window that resolves to `w` (`None` or `size` items) the blocks handed to the overlap-add are
+`after(inverse(func(transform(before(B_k * w), size)), size))` for the C08 blocks `B_k` of the signal
+(absent steps skipped; `windowed (some w) B` is `zipWith (*) B w`, `windowed none B = B`); in the call trace the first step called receives `B_k * w` itself and
+`func` receives `transform(before(B_k * w))`. -/
+theorem stft_window_first (size : Nat) (hop? : Option Nat) (wnd : WndArg K) (w : Option (List K))
+    (hres : resolveWndStft size wnd = .ok w) (st : Stages K) (sig : List K) :
+    blkGen size hop? wnd st sig =
+      .ok ((blocks size (hop?.getD size) 0 sig).map fun B => chainOf st size (windowed w B)) ∧
+    blkGenTrace size hop? wnd st sig =
+      (blocks size (hop?.getD size) 0 sig).map (fun B => processTrace (st.funcs size) (windowed w B)) ∧
+    (∀ blk, (processTrace (st.funcs size) blk).find? (fun e => e.1 = "func") =
+        some ("func", funcInput st size blk)) ∧
+    (∀ blk, ∃ name, (processTrace (st.funcs size) blk).head? = some (name, blk)) := by
+  refine ⟨?_, ?_, processTrace_func st size, processTrace_head st size⟩
+  · simp only [blkGen, hres, process_funcs]
+  · simp only [blkGenTrace, hres]
+
+/-- **C09.4** an STFT wrapper whose block processing is the identity reconstructs its input: with
+`hop ∣ size`, analysis window `wa`, overlap-add `overlap_add.list` called with the same size and
+hop and synthesis window `ws`, if the hop-shifted copies of `g * ws * wa` sum to one, then every
+output sample covered by `size/hop` blocks equals the input sample, and nothing is raised. -/
+theorem stft_identity (size hop : Nat) (hs : 0 < size) (h0 : 0 < hop) (hd : hop ∣ size)
+    (hop? : Option Nat) (hhop : hop?.getD size = hop)
+    (wa : WndArg K) (wa? : Option (List K)) (hwa : resolveWndStft size wa = .ok wa?)
+    (st : Stages K) (hid : ∀ b, process (st.funcs size) b = b)
+    (c : OlaCall K) (hcs : c.size? = some size) (hch : c.hop?.getD size = hop)
+    (ws? : Option (List K)) (hws : resolveWnd size c.wnd = .ok ws?)
+    (hwl : ∀ w, ws? = some w → w.length = size)
+    (cola : ∀ j, j < hop → sumTo (size / hop) (fun i => gainSpec size hop c.normalize ws? *
+        ((wndSpec size ws?).getD (j + i * hop) 0 * (wndSpec size wa?).getD (j + i * hop) 0)) = 1)
+    (x : List K) (n : Nat) (hn1 : size - hop ≤ n) (hn2 : n < (blocks size hop 0 x).length * hop) :
+    (stftRun false size hop? wa st (some c) x).out.getD n 0 = x.getD n 0 ∧
+    (stftRun false size hop? wa st (some c) x).err = none := by
+  have hh : hop ≤ size := Nat.le_of_dvd hs hd
+  have hwal : ∀ w, wa? = some w → w.length = size := fun w e =>
+    resolveWndStft_length size wa w (e ▸ hwa)
+  simp only [stftRun, Bool.false_eq_true, if_false, blkGen, hwa, hhop, hid, overlapAddFrom]
+  rw [ALV.Props.C08.blocks_eq_spec size hop hs h0] at hn2 ⊢
+  have hrow := blocksSpec_row_length size hop hs h0 (0 : K) x
+  have hget := blocksSpec_getD size hop h0 (0 : K) x
+  generalize blocksSpec size hop (0 : K) x = Bs at hn2 hrow hget
+  have hrow' : ∀ B ∈ Bs.map (windowed wa?), B.length = size := by
+    intro B hB
+    obtain ⟨B0, h0', rfl⟩ := List.mem_map.1 hB
+    exact windowed_length size wa? hwal B0 (hrow B0 h0')
+  have h := ola_eq_spec size hop hs h0 hh _ hrow' c.size? c.hop? (by rw [hcs]; rfl) hch c.wnd ws? hws
+    hwl c.normalize
+  refine ⟨?_, h.2⟩
+  rw [h.1]
+  unfold olaSpec
+  rw [List.length_map, getD_range_map _ _ _ (by omega)]
+  apply olaAt_inverse size hop h0 hd _ _ (fun i => (wndSpec size wa?).getD i 0) x
+  · intro k hk i hi
+    rw [List.length_map] at hk
+    have e : (Bs.map (windowed wa?)).getD k [] = windowed wa? (Bs.getD k []) := by
+      simp [List.getD_eq_getElem?_getD, List.getElem?_eq_getElem hk]
+    have hBk : (Bs.getD k []).length = size := by
+      have : Bs.getD k [] = Bs[k] := by simp [List.getD_eq_getElem?_getD, List.getElem?_eq_getElem hk]
+      rw [this]; exact hrow _ (List.getElem_mem hk)
+    rw [e, windowed_getD size wa? hwal _ hBk i hi, hget k hk i hi]
+  · exact cola
+  · exact hn1
+  · rw [List.length_map]; exact hn2
+
+end stft_run
+
+/-- non-vacuity of `stft_identity`: all steps `None`, identity `func` -/
+example : ∀ b : List ℚ, process ((⟨none, none, id, none, none⟩ : Stages ℚ).funcs 4) b = b := fun _ => rfl
+
 
 /-- non-vacuity: two blocks of 3 with hop 2 and a non-trivial window -/
 example : (olaCore 3 2 (some [1, 2, 3]) [[1, 10, 100], [1000, 10000, 100000]] : Out Int).out
